@@ -23,7 +23,7 @@ def one_transfer(rng, T=16, C=8, kinds=None, sizes=None):
     t.update(extra)
     if kind == 'upload' and t['src'] == 'seekable':
         t['start'] = rng.choice([0, 0, 5])
-        t['flavor'] = rng.choice(['declared', 'declared', 'duck'])
+        t['flavor'] = rng.choice(['declared', 'declared', 'duck', 'fileno'])
     if kind == 'upload' and t['src'] == 'nonseekable':
         t['flavor'] = rng.choice(['bare', 'bare', 'declared', 'raising'])
     if kind == 'download' and t['dst'] == 'path':
